@@ -1066,6 +1066,10 @@ fn fault_for(ep: usize, r: &mut Rng) -> Fault {
     }
 }
 
+fn argmax(ws: &[Wr]) -> i64 {
+    ws.iter().enumerate().max_by_key(|(_, w)| w.size).map(|(i, _)| i as i64).unwrap_or(-1)
+}
+
 fn gen_scripts(r: &mut Rng, thorough: bool) -> Vec<Script> {
     let mut v: Vec<Script> = Vec::new();
     let small = 4096usize;
@@ -1107,7 +1111,12 @@ fn gen_scripts(r: &mut Rng, thorough: bool) -> Vec<Script> {
         let mut ws: Vec<Wr> = (0..3).map(|_| Wr { kind: kinds_for(ep, r), size: pick_size(r, 3000) }).collect();
         ws.extend((0..3).map(|_| Wr { kind: kinds_for(ep, r), size: 300000 + r.below(400000) as usize }));
         ws.extend((0..3).map(|_| Wr { kind: kinds_for(ep, r), size: pick_size(r, 20000) }));
-        push(&mut v, Script { idx: String::new(), ep, buf: small, rt: 1, chunk: 4096, stall_at: 2000 + r.below(500000), stall_ms: 400, fault: fault_for(ep, r), ws });
+        // (clients: only the largest call is abandoned, the other callers carry on)
+        let fault = match fault_for(ep, r) {
+            Fault::Cancel(_) => Fault::Cancel(argmax(&ws)),
+            f => f,
+        };
+        push(&mut v, Script { idx: String::new(), ep, buf: small, rt: 1, chunk: 4096, stall_at: 2000 + r.below(500000), stall_ms: 400, fault, ws });
         // 6. the fault with 16 medium writers
         let ws: Vec<Wr> = (0..16).map(|_| Wr { kind: kinds_for(ep, r), size: 60000 + r.below(200000) as usize }).collect();
         push(&mut v, Script { idx: String::new(), ep, buf: small, rt: 4, chunk: 65536, stall_at: r.below(300000), stall_ms: 400, fault: fault_for(ep, r), ws });
@@ -1115,20 +1124,23 @@ fn gen_scripts(r: &mut Rng, thorough: bool) -> Vec<Script> {
         let ws: Vec<Wr> = (0..8).map(|_| Wr { kind: kinds_for(ep, r), size: pick_size(r, 900) }).collect();
         push(&mut v, Script { idx: String::new(), ep, buf: 65536, rt: 2, chunk: 100, stall_at: 0, stall_ms: 150, fault: fault_for(ep, r), ws });
         // random scripts
-        let n_random = if thorough { 30 } else { 1 };
+        let n_random = if thorough { 80 } else { 3 };
         for _ in 0..n_random {
             let n = 1 + r.below(32) as usize;
             let budget: usize = if thorough { 6 << 20 } else { 2 << 20 };
             let ws: Vec<Wr> = (0..n).map(|_| Wr { kind: kinds_for(ep, r), size: pick_size(r, budget / n) }).collect();
             let total: u64 = ws.iter().map(|w| w.size as u64 + 60).sum();
-            let fault = if r.chance(1, 2) { fault_for(ep, r) } else { Fault::None };
+            let fault = match if r.chance(1, 2) { fault_for(ep, r) } else { Fault::None } {
+                Fault::Cancel(_) if r.chance(1, 2) => Fault::Cancel(argmax(&ws)),
+                f => f,
+            };
             let stall_ms = if fault == Fault::None { 50 + r.below(150) } else { 300 + r.below(200) };
             push(&mut v, Script { idx: String::new(), ep, buf: *r.pick(&[small, small, 16384, 65536, 0]), rt: 1 + r.below(4) as usize, chunk: *r.pick(&[1usize << 16, 1 << 16, 4096, 1000, 61]), stall_at: r.below(total + 1), stall_ms, fault, ws });
         }
         if thorough {
             // 32 MiB frames through default buffers (the stall point is past the kernel's ~4 MB of slack)
             let huge = 32usize << 20;
-            let ws = vec![Wr { kind: kinds_for(ep, r), size: 5000 }, Wr { kind: if ep == 5 { 'r' } else { kinds_for(ep, r) }, size: huge }, Wr { kind: kinds_for(ep, r), size: 70000 }];
+            let ws = vec![Wr { kind: kinds_for(ep, r), size: 5000 }, Wr { kind: if ep >= 3 { 'r' } else { kinds_for(ep, r) }, size: huge }, Wr { kind: kinds_for(ep, r), size: 70000 }];
             push(&mut v, Script { idx: String::new(), ep, buf: 0, rt: 2, chunk: 65536, stall_at: 1 << 20, stall_ms: 400, fault: fault_for(ep, r), ws: ws.clone() });
             push(&mut v, Script { idx: String::new(), ep, buf: 0, rt: 2, chunk: 65536, stall_at: 9 << 20, stall_ms: 200, fault: Fault::None, ws });
         }
